@@ -11,10 +11,20 @@ EXTENDS Policy, Json, Randomization
 
 CONSTANTS MaxSteps,      \* steps per behaviour
           EvalWeight,    \* copies of the Evaluate disjunct (0: configuration only - read-back runs)
-          RbEvery        \* TRUE: the harness reads everything back after every config step
+          RbEvery,       \* TRUE: the harness reads everything back after every config step
+          Avoid          \* subset of KFTriggers: input shapes (known findings) NOT to generate
 
 VARIABLES P, hist, done
 gvars == <<P, hist, done>>
+
+(* input shapes that reach a recorded finding of C10 (findings_proposed/C10-*.md).  The bulk of the
+   behaviours is generated with all of them avoided and must pass the strict invariants; a smaller
+   batch is generated with none avoided and is judged with the finding-specific weakenings. *)
+KFTriggersWb  == {"delasgall", "replace", "delstmt2", "extdel", "lb", "largeadd"}
+KFTriggersApi == KFTriggersWb \cup {"apiorigin", "apicommact"}
+(* over the API a DeleteStatement of the "delstmt2" shape kills the server process: never generated *)
+ApiAlways     == {"delstmt2"}
+NoAvoid       == {}
 
 Pick(S) == {RandomElement(S)}
 Min2(a, b) == IF a < b THEN a ELSE b
@@ -37,7 +47,8 @@ CondPool(k) ==
     [] k = "nh"      -> {Cond(k, "", "", "", 0, hs) :
                            hs \in {{"192.0.2.1"}, {"192.0.2.2"}, {"192.0.2.1", "192.0.2.2"},
                                    {"2001:db8:ee::1"}, {"10.0.0.254", "192.0.2.2"}}}
-AvailCondKinds == {k \in CondKinds : CondPool(k) # {}}
+AvailCondKinds == {k \in CondKinds : CondPool(k) # {}} \ (IF "apiorigin" \in Avoid THEN {"origin"} ELSE {})
+AvailActKinds  == ActKinds \ (IF "apicommact" \in Avoid THEN {"ext", "large"} ELSE {})
 
 SmallSubsets(S) == {T \in SUBSET S : Cardinality(T) \in {1, 2}}
 ActPool(k) ==
@@ -47,7 +58,8 @@ ActPool(k) ==
                         \cup {Act(k, "last-as", 0, r, {}, "") : r \in 1..2}
     [] k = "comm"    -> {Act(k, m, 0, 0, vs, "") : m \in {"add", "remove", "replace"}, vs \in SmallSubsets(Comms)}
     [] k = "ext"     -> {Act(k, m, 0, 0, vs, "") : m \in {"add", "remove", "replace"}, vs \in SmallSubsets(ExtComms)}
-    [] k = "large"   -> {Act(k, m, 0, 0, vs, "") : m \in {"add", "remove", "replace"}, vs \in SmallSubsets(LargeComms)}
+    [] k = "large"   -> {Act(k, m, 0, 0, vs, "") : m \in {"remove", "replace"} \cup (IF "largeadd" \in Avoid THEN {} ELSE {"add"}),
+                                                      vs \in SmallSubsets(LargeComms)}
     [] k = "nh"      -> {Act(k, "addr", 0, 0, {}, a) : a \in NextHops4 \cup NextHops6}
                         \cup {Act(k, "self", 0, 0, {}, ""), Act(k, "unchanged", 0, 0, {}, "")}
     [] k = "origin"  -> {Act(k, "", n, 0, {}, "") : n \in 0..2}
@@ -58,7 +70,7 @@ RandActs(ks)  == {RandomElement(ActPool(k)) : k \in ks}
 (* one random statement body over the given condition / action kinds *)
 RandStmt(name, nc, na, disp) ==
   LET cks == RandomSubset(Min2(nc, Cardinality(AvailCondKinds)), AvailCondKinds)
-      aks == RandomSubset(na, ActKinds)
+      aks == RandomSubset(Min2(na, Cardinality(AvailActKinds)), AvailActKinds)
   IN Stmt(name, RandConds(cks), RandActs(aks), disp)
 
 Disps == {"none", "none", "accept", "reject"}
@@ -75,8 +87,9 @@ GenAddSet ==
     LET cur  == IF name \in DOMAIN P.dsets THEN P.dsets[name].members ELSE {}
         fam  == IF kind = "prefix" /\ cur # {} /\ ~rep THEN (CHOOSE e \in cur : TRUE).fam ELSE famsel
         pool == IF kind = "prefix" THEN {e \in PrefixEntries : e.fam = fam} ELSE MembersOf(kind)
-    IN \E ms \in SomeOf(pool, n) :
-         Step([op |-> "AddSet", kind |-> kind, name |-> name, members |-> ms, replace |-> rep])
+    IN /\ ("replace" \in Avoid /\ rep) => ~SetReferenced(P, name)
+       /\ \E ms \in SomeOf(pool, n) :
+            Step([op |-> "AddSet", kind |-> kind, name |-> name, members |-> ms, replace |-> rep])
 
 GenDelSet ==
   /\ DOMAIN P.dsets # {}
@@ -84,8 +97,9 @@ GenDelSet ==
        LET kind == P.dsets[name].kind
            cur  == P.dsets[name].members
            pool == IF cur = {} THEN MembersOf(kind) ELSE cur
-       IN \E ms \in SomeOf(IF kind = "prefix" THEN {e \in pool : e.fam = (CHOOSE x \in pool : TRUE).fam} ELSE pool, n) :
-            Step([op |-> "DelSet", kind |-> kind, name |-> name, members |-> ms, all |-> all])
+       IN /\ ("extdel" \in Avoid /\ kind = "ext") => all
+          /\ \E ms \in SomeOf(IF kind = "prefix" THEN {e \in pool : e.fam = (CHOOSE x \in pool : TRUE).fam} ELSE pool, n) :
+               Step([op |-> "DelSet", kind |-> kind, name |-> name, members |-> ms, all |-> all])
 
 GenAddStmt ==
   \E name \in Pick(StmtNames) : \E nc \in Pick(0..3) : \E na \in Pick(0..2) : \E d \in Pick({1, 2, 3, 4}) :
@@ -94,7 +108,7 @@ GenAddStmt ==
     THEN \* merge: only kinds that the statement does not have yet
          LET old == P.stmts[name]
              cks == AvailCondKinds \ {c.k : c \in old.conds}
-             aks == ActKinds \ {a.k : a \in old.acts}
+             aks == AvailActKinds \ {a.k : a \in old.acts}
          IN \E cs \in SomeOf(cks, Min2(nc, 1)) : \E as \in SomeOf(aks, Min2(na, 1)) :
             \E body \in {Stmt(name, RandConds(cs), RandActs(as), IF old.disp = "none" THEN disp ELSE "none")} :
               /\ body.conds # {} \/ body.acts # {} \/ body.disp # "none"
@@ -107,7 +121,8 @@ GenDelStmt ==
      \E dd \in Pick(BOOLEAN) :
        LET old == P.stmts[name] IN
        \E cs \in SomeOf(old.conds, n) : \E as \in SomeOf(old.acts, m) :
-         Step([op |-> "DelStmt", all |-> all,
+         /\ ("delstmt2" \in Avoid /\ ~all) => (Cardinality(cs) <= 1 /\ Cardinality(as) <= 1)
+         /\ Step([op |-> "DelStmt", all |-> all,
                stmt |-> IF all THEN BareStmt(name)
                         ELSE Stmt(name, cs, as, IF dd THEN old.disp ELSE "none")])
 
@@ -149,9 +164,11 @@ GenAddAsg ==
            Step([op |-> "AddAsg", dir |-> dir, pols |-> SetToSeq(ns), def |-> def])
 
 GenDelAsg ==
-  \E dir \in Pick(Dirs) : \E all \in Pick({TRUE, FALSE, FALSE}) :
+  \E dir \in Pick(Dirs) : \E all \in Pick(BOOLEAN) :
     \E ns \in SomeOf(SeqSet(P.asg[dir].pols), 1) :
-      Step([op |-> "DelAsg", dir |-> dir, all |-> all, pols |-> IF all THEN <<>> ELSE SetToSeq(ns)])
+      /\ P.asg[dir].pols # <<>>
+      /\ "delasgall" \in Avoid => ~all
+      /\ Step([op |-> "DelAsg", dir |-> dir, all |-> all, pols |-> IF all THEN <<>> ELSE SetToSeq(ns)])
 
 ---------------------------------------------------------------------------
 SeqsOf(S, maxn) == {SetToSeq(T) : T \in {T \in SUBSET S : Cardinality(T) <= maxn}}
@@ -161,7 +178,7 @@ GenEval ==
   /\ \E d \in Dirs : Flat(P, d) # <<>>
   /\ \E pfx \in Pick(RoutePrefixes) : \E src \in Pick(Sources) : \E ap \in Pick(AsPaths) :
      \E o \in Pick(0..2) : \E med \in Pick({-1, 0, 5, 50}) : \E lp \in Pick({-1, 100, 200}) :
-     \E cm \in Pick(SeqsOf(Comms, 3)) : \E ex \in Pick(SeqsOf(ExtComms \cup {ExtLB}, 2)) :
+     \E cm \in Pick(SeqsOf(Comms, 3)) : \E ex \in Pick(SeqsOf(ExtComms \cup (IF "lb" \in Avoid THEN {} ELSE {ExtLB}), 2)) :
      \E lg \in Pick(SeqsOf(LargeComms, 2)) : \E rpki \in Pick(RpkiStates) : \E chain \in Pick(BOOLEAN) :
      \E nh \in Pick(IF pfx.fam = "v4" THEN NextHops4 ELSE NextHops6) :
        LET r     == Route(pfx, src, nh, ap, o, med, lp, cm, ex, lg, rpki, chain)
